@@ -29,9 +29,9 @@ func TestVerif(t *testing.T) {
 		ID:    "C12",
 		Level: "exploration",
 		Rule: "plain enumeration of three input families, each case run under all 2 x 4 x 16 = 128 configurations: TarReproducible {off,on} on the source file store x intermediate store {memory, OCI layout on tmpfs, remote repository over the in-process registry model, file store} x {PreservePermissions, SkipUnpack, ForceCAS, IgnoreNoName} (all 16) on the second file store. " +
-			"Pipeline: harness writes the tree (explicit chmod, explicit atime/mtime incl. on symlinks) -> Store.Add(name, path != name) -> PackManifest v1.1 -> Tag -> Copy to the intermediate -> Copy (CopyGraph when IgnoreNoName, whose Tag step cannot succeed) into a file store on a fresh directory. " +
-			"Family NAMES: every directory tree with <= 3 entries [thorough 4] below the added directory, nesting depth <= 3, entry kinds {directory (hence empty directory), empty file, 1-byte file, 70KiB+1 file, symlink to a sibling, symlink ../x to an entry of the parent directory, dangling symlink} x name class {ascii, 101-byte, non-ASCII} per entry (files 0644, directories 0755), siblings up to permutation, x name of the added directory {top, nest/top, non-ASCII, 101-byte} (trees of the maximal size: top only). " +
-			"Family MODES: every tree with <= 3 entries [thorough 4] over {directory 0755|0700|0777, 1-byte file 0644|0600|0755|0700|0444|0666} x mode of the added directory {0755,0700,0777}. " +
+			"Pipeline: harness writes the tree (explicit chmod, explicit atime/mtime incl. on symlinks) -> Store.Add(name, path != name; in family BLOBS a.txt and dirg with the empty default path) -> PackManifest v1.1 -> Tag -> Copy to the intermediate -> Copy (CopyGraph when IgnoreNoName, whose Tag step cannot succeed) into a file store on a fresh directory. " +
+			"Family NAMES: every directory tree below the added directory with nesting depth <= 3, siblings up to permutation, entry kinds {directory (hence empty directory), empty file, 1-byte file, 70KiB+1 file, symlink to a sibling, symlink ../x to an entry of the parent directory, dangling symlink} x name class {ascii, 101-byte, non-ASCII} chosen per entry (files 0644, directories 0755): quick <= 2 entries under each name of the added directory {top, nest/top, non-ASCII, 101-byte} and 3 entries under top; thorough <= 3 entries under each of the four names, 4 entries with one name class for the whole tree under top, 5 entries with ascii names under top. " +
+			"Family MODES: every tree with <= 3 entries over {directory 0755|0700|0777, 1-byte file 0644|0600|0755|0700|0444|0666} x (mode of the added directory {0755,0700,0777} under the inherited umask, 0755 under umask 0077 set for the case); thorough adds the 4-entry trees with 0755 under both umasks. " +
 			"Family BLOBS: every ordered selection of <= 3 [thorough 4] distinct items out of 9 added side by side: three files with the same bytes (one under a nested name, different modes), two 70KiB files with the same bytes (one under a 101-byte name), two empty files (one non-ASCII name), two directories with the same content under different names. " +
 			"Oracle (os, crypto/sha256, compress/gzip, archive/tar only): Add's descriptor carries the name, digest/size = sha256/length of the bytes the source store serves, the recorded uncompressed digest = sha256 of the gunzipped bytes, the archive decoded with archive/tar lists exactly the source entries (type, bytes, link target, mode); the restored tree is compared recursively below the added name (paths, types, bytes, link targets, modes masked with the process umask or exact with PreservePermissions; the added directory's own mode only with PreservePermissions; single files' modes and timestamps never); with SkipUnpack the stored file must be the descriptor's bytes; " +
 			"every name must materialise, names sharing bytes included, except that under ForceCAS one name per group of equal bytes suffices; per tree and TarReproducible setting a second copy of the tree with different atime/mtime everywhere is added to a second store: with TarReproducible the descriptors must be deeply equal; " +
@@ -46,8 +46,8 @@ func TestVerif(t *testing.T) {
 			"the remote intermediate is the in-process registry model (E5), no sockets",
 		},
 		Jobs:           jobs,
-		BudgetQuick:    240,
-		BudgetThorough: 1500,
+		BudgetQuick:    400,
+		BudgetThorough: 1200,
 	})
 }
 
@@ -105,6 +105,7 @@ func newMid(kind string) (oras.Target, *Registry, func()) {
 type caseSpec struct {
 	family string
 	items  []item
+	umask  int // -1: the umask the process inherited; otherwise set for the duration of the case
 }
 
 func (cs caseSpec) describe() string {
@@ -112,7 +113,11 @@ func (cs caseSpec) describe() string {
 	for _, it := range cs.items {
 		parts = append(parts, it.describe())
 	}
-	return cs.family + ": " + strings.Join(parts, " + ")
+	u := ""
+	if cs.umask >= 0 {
+		u = fmt.Sprintf(" [umask set to %04o]", cs.umask)
+	}
+	return cs.family + u + ": " + strings.Join(parts, " + ")
 }
 
 func (cs caseSpec) key() string {
@@ -120,7 +125,7 @@ func (cs caseSpec) key() string {
 	for _, it := range cs.items {
 		parts = append(parts, it.key())
 	}
-	return cs.family + "#" + strings.Join(parts, "#")
+	return fmt.Sprintf("%s#%d#", cs.family, cs.umask) + strings.Join(parts, "#")
 }
 
 func (cs caseSpec) nontrivial() bool {
@@ -135,32 +140,74 @@ func enumerate(family string, th bool, yield func(idx int, cs func() caseSpec)) 
 	idx := 0
 	switch family {
 	case "names":
-		n := 3
-		if th {
-			n = 4
-		}
+		// quick: <= 2 entries under all four names, 3 entries under "top";
+		// thorough: <= 3 entries under all four names, plus 4 entries with one
+		// name class for all entries, plus 5 entries with ascii names, under "top"
 		codes := codesNames()
-		genTrees(n, codes, func(g []gent) {
-			tops := topNames
-			if len(g) == n {
-				tops = topNames[:1] // the largest trees only under the plain name
-			}
+		full, n := 2, 3
+		if th {
+			full = 3
+		}
+		emit := func(g []gent, codes []gcode, tops []string) {
 			for _, top := range tops {
 				top := top
-				yield(idx, func() caseSpec { return caseSpec{family, []item{buildItem(top, 0o755, g, codes)}} })
+				yield(idx, func() caseSpec { return caseSpec{family, []item{buildItem(top, 0o755, g, codes)}, -1} })
 				idx++
 			}
+		}
+		genTrees(n, codes, func(g []gent) {
+			if len(g) <= full {
+				emit(g, codes, topNames)
+			} else {
+				emit(g, codes, topNames[:1])
+			}
 		})
+		if th {
+			genTrees(4, codes, func(g []gent) {
+				if len(g) != 4 {
+					return
+				}
+				for _, e := range g {
+					if codes[e.code].ncls != codes[g[0].code].ncls {
+						return
+					}
+				}
+				emit(g, codes, topNames[:1])
+			})
+			var ascii []gcode
+			for _, c := range codes {
+				if c.ncls == 0 {
+					ascii = append(ascii, c)
+				}
+			}
+			genTrees(5, ascii, func(g []gent) {
+				if len(g) == 5 {
+					emit(g, ascii, topNames[:1])
+				}
+			})
+		}
 	case "modes":
+		// top-directory mode x umask: all three modes under the inherited umask
+		// and 0755 under umask 0077; thorough adds the 4-entry trees with 0755
+		// under both umasks
+		type tu struct {
+			mode  os.FileMode
+			umask int
+		}
+		all := []tu{{0o755, -1}, {0o700, -1}, {0o777, -1}, {0o755, 0o077}}
 		n := 3
 		if th {
 			n = 4
 		}
 		codes := codesModes()
 		genTrees(n, codes, func(g []gent) {
-			for _, tm := range dirModes {
-				tm := tm
-				yield(idx, func() caseSpec { return caseSpec{family, []item{buildItem("top", tm, g, codes)}} })
+			combos := all
+			if len(g) == 4 {
+				combos = []tu{{0o755, -1}, {0o755, 0o077}}
+			}
+			for _, x := range combos {
+				x := x
+				yield(idx, func() caseSpec { return caseSpec{family, []item{buildItem("top", x.mode, g, codes)}, x.umask} })
 				idx++
 			}
 		})
@@ -176,7 +223,7 @@ func enumerate(family string, th bool, yield func(idx int, cs func() caseSpec)) 
 			if len(cur) > 0 {
 				sel := append([]int(nil), cur...)
 				yield(idx, func() caseSpec {
-					cs := caseSpec{family: family}
+					cs := caseSpec{family: family, umask: -1}
 					for _, i := range sel {
 						cs.items = append(cs.items, all[i])
 					}
@@ -228,7 +275,6 @@ func processUmask() os.FileMode {
 
 func runShard(c *driver.Ctx, family string, th bool, sh, nsh int) {
 	umask := processUmask()
-	defer profStart()()
 	enumerate(family, th, func(idx int, mk func() caseSpec) {
 		if idx%nsh != sh || c.Capped {
 			return
@@ -238,6 +284,12 @@ func runShard(c *driver.Ctx, family string, th bool, sh, nsh int) {
 			return
 		}
 		cs := mk()
+		umask := umask
+		if cs.umask >= 0 {
+			old := syscall.Umask(cs.umask)
+			defer syscall.Umask(old)
+			umask = os.FileMode(cs.umask)
+		}
 		r := &run{c: c, cs: cs, umask: umask, count: true}
 		r.evalCase()
 		c.Count("cases_"+family, 1)
@@ -333,6 +385,20 @@ var copyOpts = func() oras.CopyOptions {
 	return o
 }()
 
+// addPath is the path argument of Add for the k-th item (onDisk: where the
+// harness puts it, relative to the working directory). Items flagged
+// defaultPath are added with an empty path, i.e. from <working dir>/<name>;
+// all others from a path that differs from the name.
+func addPath(it item, k int, onDisk bool) string {
+	if it.defaultPath {
+		if onDisk {
+			return filepath.FromSlash(it.name)
+		}
+		return ""
+	}
+	return fmt.Sprintf("in%d", k)
+}
+
 func itemClass(it item) string {
 	if it.dir {
 		return "directory"
@@ -375,7 +441,7 @@ func (r *run) evalSource(tr bool) {
 	srcwd := filepath.Join(r.base, fmt.Sprintf("src-%v", tr))
 	hmust(os.Mkdir(srcwd, 0o777))
 	for k, it := range items {
-		hmust(materialise(it, filepath.Join(srcwd, fmt.Sprintf("in%d", k)), 0))
+		hmust(materialise(it, filepath.Join(srcwd, addPath(it, k, true)), 0))
 	}
 	src, err := file.New(srcwd)
 	hmust(err)
@@ -385,7 +451,7 @@ func (r *run) evalSource(tr bool) {
 	descs := make([]ocispec.Descriptor, len(items))
 	blobs := make([][]byte, len(items))
 	for k, it := range items {
-		d, err := src.Add(ctx, it.name, "", fmt.Sprintf("in%d", k))
+		d, err := src.Add(ctx, it.name, "", addPath(it, k, false))
 		if err != nil {
 			r.fail(fail("Add failed ("+itemClass(it)+"): "+errWords(err), "%s", r.scrub(err)), where)
 			return
@@ -425,13 +491,13 @@ func (r *run) evalSource(tr bool) {
 	src2wd := filepath.Join(r.base, fmt.Sprintf("src2-%v", tr))
 	hmust(os.Mkdir(src2wd, 0o777))
 	for k, it := range items {
-		hmust(materialise(it, filepath.Join(src2wd, fmt.Sprintf("in%d", k)), 1))
+		hmust(materialise(it, filepath.Join(src2wd, addPath(it, k, true)), 1))
 	}
 	src2, err := file.New(src2wd)
 	hmust(err)
 	src2.TarReproducible = tr
 	for k, it := range items {
-		d2, err := src2.Add(ctx, it.name, "", fmt.Sprintf("in%d", k))
+		d2, err := src2.Add(ctx, it.name, "", addPath(it, k, false))
 		if err != nil {
 			r.fail(fail("Add failed ("+itemClass(it)+"): "+errWords(err), "%s", r.scrub(err)), where+" (second copy of the tree)")
 			break
